@@ -143,8 +143,20 @@ def run(O, P):
     # the same histories through the package's wrapper (main.js, both rewriter classes, one instance each for the whole batch):
     # a stand-in native module replays the native results -- errors included --, and every call must hand back what the same
     # call made alone hands back, whatever was processed (or refused) before it
+    # ... and histories in which the text handed in is itself the output of an earlier call (a file rewritten twice by mistake,
+    # a bundler feeding the result back): refused every time, whatever the package remembers about texts or files
+    fed = []
+    for h, r1 in zip(batch, first):
+        for k, call in enumerate(h["calls"]):
+            rr = r1["calls"][k]
+            if rr.get("outcome") == "ok" and (rr["result"].get("content") or "") and len(fed) < 12:
+                out_text = rr["result"]["content"]
+                fed.append(dict(h, id=h["id"] + "~fedback%d" % k, calls=[call, {"code": out_text, "file": call["file"]}, {"code": out_text, "file": call["file"]},
+                                                                          {"code": out_text, "file": "other-" + os.path.basename(call["file"])}, {"code": out_text, "file": call["file"]}]))
+                break
+    fed_native = vlib.run_harness(fed, "c16f") if fed else []
     jobs = []
-    for h, r1 in zip(batch[:120], first[:120]):
+    for h, r1 in list(zip(batch[:120], first[:120])) + list(zip(fed, fed_native)):
         for which in (True, False):
             steps = []
             for k, call in enumerate(h["calls"]):
